@@ -10,9 +10,9 @@ ls -d seeded/*/ | xargs -n 1 -P $P sh -c '
   prop=$(python3 -c "import json;print(json.load(open(\"$d/meta.json\"))[\"property\"])")
   res=$(tools/try_mutant.sh $d/patch.diff $prop 2>&1)
   line=$(echo "$res" | grep -A1 "^VIOLATION" | grep "^  C" | head -1 | cut -c1-160)
-  if echo "$res" | grep -q "^VIOLATION"; then st=caught; else st=MISSED; fi
+  if echo "$res" | grep -q "^VIOLATION"; then st=caught; elif echo "$res" | grep -q "patch does not apply"; then st=NOAPPLY; else st=MISSED; fi
   echo "$id $prop $st $line" > .work/matrix/$id.txt
   echo "$id $prop $st"
 '
 cat .work/matrix/*.txt | sort > $OUT
-grep -c caught $OUT; grep MISSED $OUT
+grep -c caught $OUT; grep -E 'MISSED|NOAPPLY' $OUT
